@@ -27,12 +27,13 @@ from ..core import Sub, fail, enc, jkey
 from .. import heapfp
 
 BOUNDS = {
-    'quick': 'operation alphabet: parse(f) for 16 residue-leaving formulas, set_variable x 2 values, set_function x 2 bodies, '
-             'on/off of a cell listener (23 operations); all histories of length <= 2 x 16 probes, debug off and on; closure '
+    'quick': 'operation alphabet: parse(f) for 21 residue-leaving formulas, set_variable x 2 values, set_function x 2 bodies, '
+             'on/off of a cell listener (27 operations); all histories of length <= 2 x 18 probes, debug off and on, each '
+             'history in a pristine process (fork server) against solo outcomes from pristine processes; closure '
              'search over heap fingerprints to a fixpoint (cap depth 5); repetition ladder 1,2,4,...,64 per formula for live '
              'traceback/frame counts; host-list immutability for every documented function x arity <= 2 x list-valued '
              'argument positions + operator paths',
-    'thorough': 'histories of length <= 3 (12 167 x 16 probes x 2 debug settings); closure cap depth 8; immutability at arity 3',
+    'thorough': 'histories of length <= 3 (19 683 x 18 probes x 2 debug settings); closure cap depth 8; immutability at arity 3',
 }
 ASSUMPTIONS = ['NOW/TODAY/RAND/RANDBETWEEN are evaluated under a seam that fixes clock and random source (attributes '
                '`random` of hotxlfp.formulas.mathtrig and `datetime` of hotxlfp.formulas.dateandtime replaced from outside); '
@@ -103,9 +104,11 @@ def seams():
 # operation alphabet
 
 FORMULAS = ['SUM(1,2)+va', 'va*2', '1/0', 'nosuchvar+1', 'SUM(1/0,1)', 'MAX(NA())', '1+', '"abc', '#REF!', 'NOSUCHFN(1)',
-            'FBOOM(1)', 'FSYN(1)', '{1,2}+1', 'DATE(2019,1,2)+1', 'YEAR(NOW())+RAND()', 'FN(va)&A1', 'IFERROR(FBOOM(2),A1)',
-            'CONCATENATE(1/0,"x")', 'A1:B2']
-NPROBE = 16      # the first 16 are also probes
+            'FBOOM(1)', 'FSYN(1)', '{1,2}+1', 'DATE(2019,1,2)+1', 'YEAR(NOW())+RAND()', 'FN(va)&A1',
+            'ABS(TRUE)&"|"&SUM("1")&"|"&INDEX({"a","b"},TRUE)', 'ABS(1.0)&"|"&SUM(1.0)&"|"&(0.0+FALSE)',
+            'IFERROR(FBOOM(2),A1)', 'CONCATENATE(1/0,"x")', 'A1:B2']
+NPROBE = 18      # the first 18 are also probes
+NEEDS_ZYGOTE = True
 
 
 def boom(*a):
@@ -188,6 +191,22 @@ def norm(env, r, seam_ok, formula):
     return out
 
 
+def pristine_history(payload):
+    """Runs in a pristine grandchild of the zygote (a process that has evaluated nothing):
+    replay `hist` on a new parser, then evaluate the probes in order; returns their outcomes."""
+    from ..core import Env
+    env = Env()
+    with seams() as seam_ok:
+        w = World(env, debug=payload.get('debug', False))
+        for op in payload['hist']:
+            w.apply(op)
+        out = []
+        for pi in payload['probes']:
+            text = FORMULAS[pi]
+            out.append(norm(env, w.parse(text), seam_ok, text))
+        return out
+
+
 class Histories(Sub):
     name = 'c02.histories'
     rule = ('every operation history up to the depth bound on one parser, then every probe formula: outcome equals the '
@@ -207,28 +226,25 @@ class Histories(Sub):
         yield ['h', []]
 
     def run_history(self, env, hist, seam_ok):
-        """-> failure or None"""
+        """-> failure or None.  History + probes run in a pristine process; the reference for each probe is its
+        outcome as the ONLY evaluation of a pristine process whose parser carries the same bindings."""
+        from .. import zygote
         bops = binding_ops(hist)
-        ref = {}
+        refs = env.__dict__.setdefault('_c02refs', {})
         for debug in (False, True):
-            # reference: fresh parser with the same bindings, one fresh parser per probe
-            w = World(env, debug=debug)
-            for op in hist:
-                w.apply(op)
+            got = zygote.call('hxverif.props.c02', 'pristine_history',
+                              {'hist': hist, 'probes': list(range(NPROBE)), 'debug': debug})
+            env.evals += NPROBE + len(hist)
             for pi in range(NPROBE):
-                text = FORMULAS[pi]
-                got = norm(env, w.parse(text), seam_ok, text)
-                env.evals += 1
-                key = pi
-                if key not in ref:
-                    f = World(env, debug=False)
-                    for op in bops:
-                        f.apply(op)
-                    ref[key] = norm(env, f.parse(text), seam_ok, text)
+                key = (jkey(bops), pi)
+                if key not in refs:
+                    refs[key] = zygote.call('hxverif.props.c02', 'pristine_history',
+                                            {'hist': bops, 'probes': [pi], 'debug': False})[0]
                     env.evals += 1
-                if got != ref[key]:
-                    return fail('after history %s (debug=%s) the probe %r gives %r; on a fresh parser with the same '
-                                'bindings it gives %r' % (self.show(hist), debug, text, got, ref[key]), ref[key], got,
+                if got[pi] != refs[key]:
+                    return fail('after history %s (debug=%s) the probe %r gives %r; as the only evaluation of a fresh '
+                                'process on a parser with the same bindings it gives %r' % (
+                                    self.show(hist), debug, FORMULAS[pi], got[pi], refs[key]), refs[key], got[pi],
                                 case=['h', hist])
         return None
 
@@ -252,7 +268,7 @@ class Histories(Sub):
             rest = depth - len(prefix)
             for tail in itertools.product(OPS, repeat=rest):
                 hist = prefix + list(tail)
-                if any(op[0] == 'parse' and op[1] in (2, 3, 4, 5, 6, 7, 8, 9, 10, 11) for op in hist):
+                if any(op[0] == 'parse' and op[1] in (2, 3, 4, 5, 6, 7, 8, 9, 10, 11, 18, 19) for op in hist):
                     env.nt()
                 env.note('len%d' % len(hist))
                 env.cov['traces_validated_against_impl'] = env.cov.get('traces_validated_against_impl', 0) + 1
@@ -464,7 +480,7 @@ class Retention(Sub):
         env.evals += 64
         if 'crash' in res:
             return fail('retention probe crashed: %s' % res['crash'])
-        if case in (2, 3, 4, 5, 6, 7, 8, 9, 10, 11, 16, 17):
+        if case in (2, 3, 4, 5, 6, 7, 8, 9, 10, 11, 18, 19):
             env.nt()
         counts, fps = res['counts'], res['fps']
         if len(set(counts[1:])) > 1 or counts[-1] > counts[0] + 2:
